@@ -270,6 +270,54 @@ CHECKS = {
         'histories without load_state_dict; worlds <= 4 quick / <= 8 '
         'thorough.',
         '3/C13'),
+    'C11': (
+        'explicit-state exploration of rank interleavings (exhaustive for '
+        '(1,2) and (2,1), deviation-bounded for (2,2)) + bounded-exhaustive '
+        'configuration sweep under fixed schedules of the real GPT-NeoX '
+        'K-FAC code on Megatron/DeepSpeed stand-ins, against the unsharded '
+        'reference',
+        'Every (data, model) decomposition in the box x bias on/off x '
+        'clipping inactive/active/None x bucketed or not x interval pairs '
+        'is trained for 3 steps on a column-parallel + row-parallel model; '
+        'each rank\'s gradient shards are compared with the shards of what '
+        'RefKFAC produces for the unsharded layers (clipping included), the '
+        'factors on the inverse worker with the unsharded factors, replicas '
+        'and replicated parameters across ranks; simdist checks collective '
+        'matching throughout.',
+        'DeepSpeed topology / PipelineModule and Megatron Column/'
+        'RowParallelLinear are re-implemented stand-ins (trusted base); '
+        'model-parallel degree <= 3 (quick) / 6 (thorough); known finding: '
+        'clip scale computed per shard.',
+        '3/C11'),
+    'C12': (
+        'bounded-exhaustive enumeration of 3-D topologies x ranks x cost '
+        'dictionaries on the real GPTNeoXAssignment against coordinate '
+        'arithmetic and a brute-force greedy-consistency oracle',
+        'For every (pipe, data, model) in {1..3}^3 (quick) / {1..4}^3 '
+        '(thorough), every local rank and every cost dictionary with <=3 '
+        'layers over costs {0,1,2} plus a tie-heavy catalogue, one real '
+        'assignment per rank is built in a simulated world that records '
+        'new_group; inverse worker agreement and greedy-consistency per '
+        'stage, factor worker, gradient source, gradient workers and the '
+        'new_group sequences of all ranks are checked.',
+        'the DeepSpeed topology is a re-implemented stand-in, checked '
+        'against the arithmetic rank numbering.',
+        '3/C12'),
+    'C18': (
+        'crash-point enumeration (every step boundary x checkpoint mode x '
+        'flags) of the real GPT-NeoX checkpoint code in simulated worlds, '
+        'plus exhaustive interleavings of a save+load history',
+        'For (data, model) in {(1,1),(2,1),(1,2),(2,2)}, every boundary c of '
+        'a T-step run, in-memory and directory checkpointing, '
+        'compute_inverses on/off: all ranks save, fresh objects load, '
+        'training continues; saved layers / files must be bit-equal to the '
+        'factors held by each layer\'s inverse worker on every rank, the '
+        'gathering ranks must hold factors and second-order data after '
+        'load, the continuation is compared with the unsharded reference; '
+        'simdist checks that all ranks take part in the same collectives.',
+        'stand-ins as for C11; known finding: resuming with model-parallel '
+        'degree > 1 (replicated factors restored on one rank only).',
+        '3/C18'),
 }
 
 NOT_YET = 'check not built yet (work in progress, see DESIGN.md section 8)'
